@@ -1661,6 +1661,10 @@ func TestVerifC12(t *testing.T) {
 			r.pickWindowCase(rng)
 			continue
 		}
+		if c%25 == 7 {
+			r.ecmaCase(rng)
+			continue
+		}
 		if c%500 == 250 {
 			// definitions with nil entries, against the credentials of a small case
 			srcs := []zCredSrc{zGenCred(rng, 0), zGenCred(rng, 1)}
@@ -1970,6 +1974,54 @@ func (r *zRun) pickWindowCase(rng *rand.Rand) {
 		r.opMatch(w)
 		r.walletFlow(rng, w, k)
 	}
+}
+
+// values on which ECMA-262 and other regular-expression dialects (.NET/RE2/PCRE defaults) disagree for anchored class
+// patterns: a final line feed (`$`), non-ASCII digits and letters (\d, \w), case folding specials — next to plain ones
+var zEcmaValues = []string{"admin", "admin\n", "nurse", "nurse\n", "1234", "\u0661\u0662\u0663\u0664", "12\n", "\u0967\u0968\u0969\u096a", "\uff41\uff44\uff4d\uff49\uff4e",
+	"\u00dcnit", "unit", "\u212a", "K", "\u017f", "ab_1", "ab 1", "", "\nadmin", "Admin", "12345", "12", "Z", "a"}
+var zEcmaPatterns = []string{"^[a-z]+$", "^\\d{4}$", "^\\w+$", "^[0-9]{2,4}$", "^[A-Za-z]*$", "^\\d+$", "^[a-z]{5}$", "^[a-zA-Z0-9]{1,}$", "^[\\w]{4}$", "^[K-k]$", "^\\w$", "^[a-z\\d]+$"}
+
+// ecmaCase: anchored class patterns against near-matching values; every credential alone and the whole wallet are
+// matched, built, validated and their named field resolved
+func (r *zRun) ecmaCase(rng *rand.Rand) {
+	k := 2 + rng.Intn(3)
+	srcs := []zCredSrc{}
+	for i := 0; i < k; i++ {
+		subject := map[string]interface{}{"id": "did:example:holder0", "role": zPick(rng, zEcmaValues)}
+		if rng.Intn(3) == 0 {
+			subject["tags"] = []interface{}{zPick(rng, zEcmaValues), zPick(rng, zEcmaValues)}
+		}
+		doc := map[string]interface{}{"@context": []interface{}{"https://www.w3.org/2018/credentials/v1"}, "id": "did:example:issuer#e" + strconv.Itoa(i),
+			"type": []interface{}{"VerifiableCredential", zPick(rng, zTypes)}, "issuer": "did:example:issuer0", "issuanceDate": "2020-01-01T00:00:00Z",
+			"credentialSubject": subject}
+		b, _ := json.Marshal(doc)
+		srcs = append(srcs, zCredSrc{Src: string(b)})
+	}
+	paths := []interface{}{"$.credentialSubject.role"}
+	if rng.Intn(3) == 0 {
+		paths = []interface{}{"$.credentialSubject.tags", "$.credentialSubject.role"}
+	}
+	ds := []interface{}{map[string]interface{}{"id": "d1", "constraints": map[string]interface{}{"fields": []interface{}{
+		map[string]interface{}{"id": "f1", "path": paths, "filter": map[string]interface{}{"type": "string", "pattern": zPick(rng, zEcmaPatterns)}}}}}}
+	if rng.Intn(3) == 0 {
+		ds = append(ds, map[string]interface{}{"id": "d2", "constraints": map[string]interface{}{"fields": []interface{}{
+			map[string]interface{}{"id": "f2", "path": []interface{}{"$.credentialSubject.role"}, "optional": rng.Intn(2) == 0,
+				"filter": map[string]interface{}{"type": "string", "pattern": zPick(rng, zEcmaPatterns)}}}}})
+	}
+	def := map[string]interface{}{"id": "pde", "input_descriptors": ds}
+	b, _ := json.Marshal(def)
+	r.stats["ecma-case"]++
+	if !r.opCase(string(b), srcs) {
+		return
+	}
+	for i := 0; i < k; i++ {
+		r.opMatch([]int{i})
+		r.walletFlow(rng, []int{i}, k)
+	}
+	w := rng.Perm(k)
+	r.opMatch(w)
+	r.walletFlow(rng, w, k)
 }
 
 // hostileRegexCase: a verifier-chosen pattern with catastrophic backtracking on a wallet value; only Match is run, under the watchdog
